@@ -520,6 +520,15 @@ fn c11(tier: &str) -> Vec<String> {
     }
     v.extend(queue_thresholds("long", tier));
     v.extend(queue_thresholds("errors", tier).into_iter().map(|s| s.replace("script=eo:", "script=ep:").replace("script=eoe:", "script=epe:")));
+    // the empty string is a legal metric for a sink: accepted, delivered, and not the end of anything,
+    // also right before / after a panic
+    for cap in ["u", "2"] {
+        for sc in ["p", "op", "po", "opo"] {
+            for prog in ["Z0E0E0W", "E0Z0E0W", "E0Z0QRE0E0QR", "Z0Z0E0W"] {
+                v.push(format!("queue:cap={}:script={}:prog={}", cap, sc, prog));
+            }
+        }
+    }
     // a sampler reads panics() while the worker restarts: a metric that follows a panic is handed over
     // only after the panic was counted
     for cap in ["u", "3"] {
